@@ -171,13 +171,15 @@ func fastFill(fd, peer int) {
 	syscall.SetsockoptInt(fd, syscall.SOL_SOCKET, syscall.SO_SNDBUF, 1)
 	syscall.SetsockoptInt(peer, syscall.SOL_SOCKET, syscall.SO_RCVBUF, 65536)
 	chunk := make([]byte, 16384)
-	for tries := 0; tries < 3; tries++ {
+	// "full" has to hold for a moment: under load the acknowledgements of the last segments are processed a little later
+	// and open the window again, so the state is only taken as reached when the socket stays unwritable for a millisecond
+	for tries := 0; tries < 20; tries++ {
 		for {
 			if _, err := syscall.Write(fd, chunk); err != nil {
 				break
 			}
 		}
-		if !kern.WouldNotBlockWrite(fd) {
+		if kern.Poll(fd, unix.POLLOUT, 1)&unix.POLLOUT == 0 {
 			return
 		}
 	}
